@@ -81,6 +81,18 @@ def trim : Nat → Nat → Int → Nat × Int
   | 0, n, s => (n, s)
   | k + 1, n, s => trim k (n / 10 ^ 19) (max (s - 19) (-(2 ^ 63)))
 
+/-- `f64::consts::LOG10_2` -/
+def log10_2 : Nat := 0x3FD34413509F79FF
+
+/-- `f.floor() as u64` of a non-negative double (the cast saturates) -/
+def floorU64 (bits : Nat) : Nat :=
+  if bits == inf then 2 ^ 64 - 1 else min ((val bits).1 / (val bits).2) (2 ^ 64 - 1)
+
+/-- the digit estimate of `to_f64` through the rounding primitive: `(bits + 1) as f64` is the rounded
+    integer, the product one IEEE multiplication (this is what `toF64` uses; `digitCountF64` is the same
+    computation on Lean's hardware doubles and is compared with it on every driver case) -/
+def digitCount (bits : Nat) : Nat := floorU64 (mul (ofNat (bits + 1)) log10_2)
+
 /-- the same estimate in exact integer arithmetic: `floor((bits + 1) · log10 2)` with `log10 2` to 36
     places (the `f64` product can differ from it only when it lands within an ulp of an integer) -/
 def digitCountInt (bits : Nat) : Nat :=
@@ -117,6 +129,6 @@ def trimKeeps25 (dc : Nat → Nat) (n : Nat) : Bool :=
   trimRounds dc n == 0 || decide (10 ^ (19 * trimRounds dc n + 24) ≤ n)
 
 /-- `to_f64` as the code computes it: the digit estimate is the `f64` product -/
-def toF64 (neg : Bool) (n : Nat) (scale : Int) : Nat := toF64With digitCountF64 neg n scale
+def toF64 (neg : Bool) (n : Nat) (scale : Int) : Nat := toF64With digitCount neg n scale
 
 end BigDec.F64
